@@ -166,6 +166,7 @@ impl<'a> Sim<'a> {
             let rt = self.rts.get_mut(&h).expect("missing host");
 
             self.world.borrow_mut().current = Some(h);
+            self.world.borrow_mut().current_host_mut().timer.tear_down();
 
             World::enter(&self.world, || {
                 rt.crash();
@@ -207,6 +208,7 @@ impl<'a> Sim<'a> {
             let rt = self.rts.get_mut(&h).expect("missing host");
 
             self.world.borrow_mut().current = Some(h);
+            self.world.borrow_mut().current_host_mut().timer.tear_down();
 
             World::enter(&self.world, || f(h, rt));
         }
